@@ -199,6 +199,70 @@ def check_exact_read(repo: Repo, ob: Obligation, fi: FuncInfo) -> None:
             ob.violation(fi, x, "the accumulate loop can be left before n bytes arrived")
 
 
+def check_forwarder_loop(ob, repo: Repo) -> None:
+    """sub -> master direction of serve_proxy_io, over value terms along all feasible paths (helpers and simple
+    generators inlined): every Message read from the sub io is re-emitted, as that very object, to the 'w' channel
+    file of the proxy channel before the next one is read; EOF of the sub -- and only EOF -- ends the loop; the
+    bootstrap byte is forwarded first."""
+    from ..cfg import Oracle as _Oracle
+    from ..terms import const, evaluator, show
+
+    fsp = repo.func("gateway_io.serve_proxy_io")
+    ev = evaluator(repo, fsp, _Oracle(repo, fsp, precise=True, call_raises=lambda c, f: [("EOFError", True)] if callee_attr(c) == "from_io" else None))
+    cfg = ev.cfg
+    heads = {n.id for n in cfg.nodes if n.kind in ("test", "for") and isinstance(n.owner, (ast.While, ast.For))}
+    nread = nfwd = neof = 0
+    boot = False
+    for path, st in ev.run(back_stops=heads, limit=20000):
+        subs = [e.result for e in st.events if e.kind == "call" and e.callee == "create_io"]
+        sinks = [e.result for e in st.events if e.kind == "call" and e.attr == "makefile" and (e.arg(0, "mode") == const("w"))]
+        reads = [e for e in st.events if e.kind == "call" and e.callee == "Message.from_io"]
+        for e in st.events:
+            if e.kind == "call" and e.attr == "write" and e.recv in sinks and e.args and e.args[0][0] == "fresh" and str(e.args[0][2]).endswith(".read"):
+                rd = [x for x in st.events if x.kind == "call" and x.result == e.args[0]]
+                if rd and rd[0].recv in subs and rd[0].args == (const(1),):
+                    boot = True
+        if not reads:
+            continue
+        r = reads[-1]
+        if not r.args or r.args[0] not in subs:
+            ob.violation(fsp, r.node, "the forwarder does not re-emit the message object it read from the sub", construct="from_io not on the sub io")
+            continue
+        end = path[-1][0]
+        outs = [e for e in st.events if e.kind == "call" and e.attr == "to_io" and st.events.index(e) > st.events.index(r)]
+        if r.raised:
+            neof += 1
+            if end in heads and path[-1][1] != "" and any(h == end for h in heads) and _same_loop(cfg, r.nid, end):
+                ob.violation(fsp, r.node, "the forwarding loop does not end exactly on EOF of the sub", construct="loop continues after EOF")
+            if outs:
+                ob.violation(fsp, outs[0].node, "the forwarder emits a frame after EOF of the sub")
+            continue
+        nread += 1
+        ok = len(outs) == 1 and outs[0].recv == r.result
+        ob.site(fsp, r.node, "the very Message read from the sub is re-emitted", ok=ok)
+        if not ok:
+            if end in (cfg.exit.id, cfg.raise_exit.id) or end in heads:
+                ob.violation(fsp, outs[0].node if outs else r.node, "the forwarder does not re-emit the message object it read from the sub")
+            continue
+        nfwd += 1
+        if not outs[0].args or outs[0].args[0] not in sinks:
+            ob.violation(fsp, outs[0].node, "the forwarder does not write to a 'w' channel file of the proxy channel")
+        if not (end in heads and _same_loop(cfg, r.nid, end)):
+            if end == cfg.exit.id:
+                ob.violation(fsp, r.node, "the forwarding loop does not end exactly on EOF of the sub", construct="loop ends without EOF")
+    ob.require(nread >= 1 and neof >= 1, f"forwarder loop anchors (from_io/to_io) not found (reads={nread}, eof paths={neof})")
+    if not boot:
+        ob.violation(fsp, fsp.node, "the sub's bootstrap byte is not forwarded unmodified to the master")
+
+
+def _same_loop(cfg, nid: int, head: int) -> bool:
+    """node nid lies inside the loop whose head is `head`"""
+    h = cfg.nodes[head]
+    owner = h.owner
+    a = cfg.nodes[nid].ast
+    return owner is not None and a is not None and any(x is a for b in owner.body for x in ast.walk(b))
+
+
 def check(ctx: Ctx) -> None:
     repo = ctx.repo
     ctx.decides = ("header format and field roles agree between Message.to_io and from_io; one write per frame containing header "
@@ -349,17 +413,7 @@ def check(ctx: Ctx) -> None:
         reg = [c for c in repo.calls_in(fsp) if callee_attr(c) == "setcallback" and c.args and unparse(c.args[0]) == "forward_to_sub"]
         if len(reg) != 1:
             ob.violation(fsp, fsp.node, "forward_to_sub is not registered as the callback of the proxy channel")
-        frm = [c for c in repo.calls_in(fsp) if unparse(c.func) == "Message.from_io"]
-        tio = [c for c in repo.calls_in(fsp) if callee_attr(c) == "to_io"]
-        ob.require(len(frm) == 1 and len(tio) == 1, "forwarder loop anchors (from_io/to_io) not found")
-        var = unparse(repo.parent(frm[0]).targets[0]) if isinstance(repo.parent(frm[0]), ast.Assign) else None
-        ob.site(fsp, tio[0], "the very Message read from the sub is re-emitted", var=var)
-        if var is None or unparse(tio[0].func.value) != var or unparse(frm[0].args[0]) != "sub_io":
-            ob.violation(fsp, tio[0], "the forwarder does not re-emit the message object it read from the sub")
-        sink = unparse(tio[0].args[0]) if tio[0].args else ""
-        al = repo.local_alias(sink, fsp)
-        if not (isinstance(al, ast.Call) and callee_attr(al) == "makefile" and (not al.args or repo.fold_in(al.args[0], fsp) == "w")):
-            ob.violation(fsp, tio[0], "the forwarder does not write to a 'w' channel file of the proxy channel")
+        check_forwarder_loop(ob, repo)
         # master side: ProxyIO.write = one iochan.send(data)
         pw = repo.func("gateway_io.ProxyIO.write")
         snd = [c for c in repo.calls_in(pw) if callee_attr(c) == "send"]
